@@ -89,7 +89,7 @@ def run(ctx, chk):
         chk.require(len(fb) >= 2 and all("FromPrimitive" in (b.raw.get("x") or "") for b in fb), "C20/from-u8-derived",
                     "ErrorMessages::from_u8", "FromPrimitive for ErrorMessages is not the derived implementation", "derived",
                     nontrivial=False)
-    chk.floor("abort arms analysed", n_arms, 9)
+    chk.floor("abort arms analysed", n_arms, 7)
     nested(chk, crate)
 
 
@@ -140,7 +140,7 @@ def nested(chk, crate):
                         "the outcome of %s is not handed on with `?`: an abort reported by the terminal inside it (Err carrying the "
                         "result code) is swallowed and %s can still report success" % (cn[len(FEIG):], short),
                         "`?` on the nested operation", f.sp(bb))
-    chk.floor("nested client operations", n, 9)
+    chk.floor("nested client operations", n, 6)
 
 
 def check_arm(chk, f, name, enum, av, arm, sw_bb):
